@@ -17,7 +17,14 @@ type ExpoCase struct {
 }
 
 func genExpo(t *rapid.T) *ExpoCase {
-	return &ExpoCase{W: GenExposureWorld(t), Tape: rapid.SliceOfN(rapid.Uint32Range(0, 1<<20), 0, 600).Draw(t, "tape")}
+	var w *World
+	if rapid.IntRange(0, 5).Draw(t, "expoworld") == 0 {
+		// NetworkPolicies next to Services, Ingresses and Routes: the ingress-controller lines are part of the base report
+		w = GenIngressWorld(t, false)
+	} else {
+		w = GenExposureWorld(t)
+	}
+	return &ExpoCase{W: w, Tape: rapid.SliceOfN(rapid.Uint32Range(0, 1<<20), 0, 600).Draw(t, "tape")}
 }
 
 func xentryStr(e *XEntry) string {
